@@ -5,4 +5,4 @@ Extraction "model.ml" conv_anchor Dddmp.import_file Dddmp.import_bin Dddmp.impor
   Dddmp.export_nodes Dddmp.encode_7bit Dddmp.decode_7bit Dddmp.escape Dddmp.unescape_all
   Dddmp.eval_root Dddmp.parse_edge_list Dddmp.export_var_names Dddmp.sanitize_root_names
   Dddmp.write_replacing_control Dddmp.replace_space_and_control Dddmp.trim Dddmp.dec
-  Dddmp.st_store Dddmp.st_nodes Dddmp.split_node_code.
+  Dddmp.st_store Dddmp.st_nodes Dddmp.split_node_code Dddmp.export_ascii_nodes.
